@@ -416,6 +416,31 @@ def stateless(R, B, rng):
     if st == 'ok' and st2 == 'ok':
         R.check(len(data) == 3 and len(inner.list) == 3, 'vmstack-serialize-consumes-input', f'VmStack.serialize changed the caller\'s values: tuple now has {len(inner.list)} items')
         R.check(c1.hash == c2.hash, 'vmstack-serialize-twice-differs', 'serialising the same stack twice gives different cells')
+    # every public serialiser of the VM value codec, called directly (not only through VmStack.serialize), leaves what it is given untouched and answers alike twice
+    import importlib
+    _vm = importlib.import_module("pytoniq_core.tlb.vm_stack")
+    for n in (0, 1, 2, 3, 4, 7):
+        for ename in ('VmTuple', 'VmTupleRef', 'VmStackValue', 'VmStackList', 'VmStack'):
+            cls = getattr(_vm, ename, None)
+            if cls is None or not hasattr(cls, 'serialize'):
+                continue
+            nested = VmTuple([7, 8])
+            items = [nested if i == 1 else 100 + i for i in range(n)]
+            t = VmTuple(list(items))
+            arg = t if ename in ('VmTuple', 'VmTupleRef', 'VmStackValue') else [t, 5, VmTuple(list(items))]
+            if ename == 'VmTupleRef' and n == 0:
+                continue
+            snap = lambda: (list(t.list), list(nested.list), len(arg) if isinstance(arg, list) else None)
+            before = snap()
+            st, c1 = mon.call(cls.serialize, arg)
+            mid = snap()
+            st2, c2 = mon.call(cls.serialize, arg)
+            R.count('vm_direct_serialiser_calls')
+            R.counters['oracle_evaluations'] += 1
+            W = {'entry': f'{ename}.serialize', 'tuple_length': n}
+            R.check(mid == before and snap() == before, f'direct-serialize-changes-input-{ename}', f'{ename}.serialize changed the value it was given: tuple {before[0]!r} -> {snap()[0]!r}'[:300], W)
+            if st == 'ok' and st2 == 'ok':
+                R.check(c1.hash == c2.hash, f'direct-serialize-twice-differs-{ename}', f'{ename}.serialize of the same value twice gives different cells', W)
 
 
 def isolation_matrix(R, B, rng):
@@ -517,6 +542,19 @@ def isolation_matrix(R, B, rng):
             own_bits, own_refs = _ba(bits), list(kids[:nrefs])
             direct = B.Cell(own_bits, own_refs, -1)
             d_h, d_boc = direct.hash, direct.to_boc(True, True)
+            # looking at such a cell (its bits are a plain bit array, of any length mod 8) - showing it, showing a cell / slice / builder that refers to it - is not using it
+            if nrefs < 4:
+                holder = B.Cell(_ba('101'), [direct], -1)
+                for lname, look in (('str', lambda: str(direct)), ('repr', lambda: repr(direct)), ('format', lambda: f'{direct} {direct!r}'), ('str-of-parent', lambda: str(holder)),
+                                    ('str-of-slice', lambda: str(direct.begin_parse())), ('str-of-parent-slice', lambda: (str(holder.begin_parse()), repr(holder.begin_parse()))),
+                                    ('str-of-builder', lambda: str(B.Builder().store_ref(direct))), ('hash-eq', lambda: (hash(direct), direct == direct.copy(), direct in {holder}))):
+                    mon.call(look)
+                    R.count('plain_bitarray_cells_looked_at')
+                    if not R.check(content(direct) == want and direct.hash == d_h == h0 and direct.copy().hash == h0 and direct.to_boc(True, True) == d_boc
+                                   and content(direct.begin_parse()) == want and mon.call(direct.calculate_representation_hash) == ('ok', h0),
+                                   f'looking-changes-plain-bitarray-cell-{lname}', f'{lname} of a cell constructed from a plain bit array of {nbits} bits changed the cell '
+                                   f'(it now holds {len(direct.bits)} bits; copy().hash equal: {direct.copy().hash == h0})', {'bits': nbits, 'refs': nrefs, 'look': lname}):
+                        break
             mon.call(lambda: (own_bits.append(1) if len(own_bits) < 1023 else own_bits.invert(), own_refs.append(kids[0]) if len(own_refs) < 4 else own_refs.pop()))
             R.check(content(direct) == want and direct.hash == d_h == h0 and direct.to_boc(True, True) == d_boc and direct.copy().hash == h0, 'directly-constructed-cell-aliases-callers-arrays',
                     'a cell constructed from a plain bit array and a list changed when the caller went on using that array / list', {'bits': nbits, 'refs': nrefs})
